@@ -63,6 +63,10 @@ class Gen:
         for i in range(r.randint(0, 2)):
             incs.append({"href": "inc%d%s" % (i, r.choice(FORMS + [".nml", ".nml"])), "morphs": [self.obj(MIDS) for _ in range(r.randint(0, 3))],
                          "bios": [self.obj(BIDS) for _ in range(r.randint(0, 2))], "missing": r.random() < 0.04})
+        for f in incs:
+            if f["href"].endswith((".h5", ".hdf5")) and r.random() < 0.5:
+                f["nested"] = [{"href": f["href"].split(".")[0] + "_n.nml", "morphs": [self.obj(MIDS) for _ in range(r.randint(1, 2))],
+                                "bios": [self.obj(BIDS) for _ in range(r.randint(0, 2))]}]
         if wide:
             for i in MIDS:
                 if not any(o["id"] == i for o in morphs + [o for f in incs for o in f["morphs"]]):
@@ -125,6 +129,20 @@ def fixed_histories():
             # definition removed: the reference dangles now
             {"cells": [cell(0, "m0")], "morphs": [], "bios": [], "incs": [{"href": h, "morphs": [O("m1", 3, [])], "bios": [], "missing": False}]},
         ])
+    # no rewrite at all: the same references resolved again in one process.  The definitions sit in morphs.nml, reached
+    # through an HDF5 library whose embedded XML includes it (the HDF5 loader resolves that include on every load).
+    def lib(form):
+        return {"href": "inc0" + form, "morphs": [], "bios": [O("b0", 5, [1])], "missing": False,
+                "nested": [{"href": "inc0_n.nml", "morphs": [O("m0", 6, [2, 3])], "bios": []}]}
+
+    def doc(form, **kw):
+        return dict({"cells": [cell(0, "m0"), dict(cell(1, "m0"), b={"attr": "b0", "emb": None})], "morphs": [], "bios": [],
+                     "incs": [lib(form)]}, **kw)
+
+    for form in (".nml.h5", ".h5", ".hdf5"):
+        out.append([doc(form, same_doc=True), doc(form, same_doc=True)])  # one document: overwrite=False then True; and again
+    out.append([doc(".nml.h5"), dict(doc(".nml.h5"), cells=[cell(7, "m0")])])   # two documents including the same file
+    out.append([doc(".nml.h5", pre_read=True), doc(".nml.h5", pre_read=True)])  # read_neuroml2_file(main, include_includes=True) first
     return out
 
 
@@ -216,7 +234,7 @@ def q_case(case, overwrite, run):
     def loaded(f, key):
         # what read_neuroml2_file returns for the file: for the HDF5 forms the definitions travel in the embedded XML, which
         # the loader merges with add_all_to_document - of several definitions with one id only the first arrives
-        os_ = f[key]
+        os_ = f[key] + [x for n in f.get("nested", []) for x in n[key]]  # nested includes exist for the HDF5 forms only
         if f["href"].endswith((".h5", ".hdf5")):
             os_ = [o for i, o in enumerate(os_) if o["id"] not in [x["id"] for x in os_[:i]]]
         return coq_list([q_tmpl(o) for o in os_])
@@ -240,7 +258,7 @@ HEADER = ("From Coq Require Import String List Bool ZArith.\nFrom LNML Require I
 # ------------------------------------------------------------------------------ property predicate
 def candidates(case, kind, ident):
     key = "morphs" if kind == "m" else "bios"
-    out = [o for f in case["incs"] if not f.get("missing") for o in f[key] if o["id"] == ident]
+    out = [o for f in case["incs"] if not f.get("missing") for o in f[key] + [x for n in f.get("nested", []) for x in n[key]] if o["id"] == ident]
     out += [o for o in case[key] if o["id"] == ident]
     return [[o["id"], o["v"], o["kids"]] for o in out]
 
@@ -380,7 +398,7 @@ def run(ck):
     hists = fixed_histories() + [g.history() for _ in range(ck.n(12, 120))]
     hout = ck.impl("c17_impl.py", {"histories": hists}, timeout=1500)["histories"]
     steps = [(hi, si, st) for hi, h in enumerate(hists) for si, st in enumerate(h)]
-    fresh = ck.impl("c17_impl.py", {"cases": [st for _, si, st in steps if si > 0], "fork": True}, timeout=1500)["results"]
+    fresh = ck.impl("c17_impl.py", {"cases": [st for _, si, st in steps], "fork": True}, timeout=1500)["results"]
     fresh_it = iter(fresh)
     for hi, si, st in steps:
         res = hout[hi]["steps"][si]
@@ -388,7 +406,7 @@ def run(ck):
         cases.append(st)
         results.append(res)
         ck.tally("history-call:%d" % si)
-        if si > 0:
+        if True:
             fr = next(fresh_it)
             for m in ("true", "false"):
                 a = {k: res[m][k] for k in ("outcome", "input_after", "output", "out_lists")}
